@@ -61,6 +61,7 @@ def build(ctx, force=None, root_kind=None, text=None):
     W.prog = prog
     W.filename = filename
     W.eq_mode = bool(cfg.on.get("eqmgr"))
+    W.falsy_mode = bool(cfg.on.get("falsymgr"))
     ctx.case["program"] = prog.text
     ctx.case["python"] = "%d.%d" % sys.version_info[:2]
     return b
